@@ -28,6 +28,10 @@ LEVEL_TEXT = (
     "unordered scans) and compared as a multiset (as a list where order is promised, by a validity predicate where a "
     "LIMIT without total order makes the result legitimately ambiguous) with direct evaluation.  Programs are sampled "
     "(<= 8 / 14 operations, <= 3 leaves); no claim beyond the explored programs."
+    "  Joins may be diamonds (both operands built on one sub-query-rendered relation object, or that very object "
+    "twice); a sibling program (every calculation shifted by one) is compiled by the same engine object; in a "
+    "quarter of the cases the engine first has to refuse some compilations (unprocessed materialization below a "
+    "sub-query, a column function that raises while being converted)."
 )
 LEVEL_NOTE = (
     "trusts: reference evaluator ev_bag + its determinacy labels (DESIGN 4.4), SQLite 3.40 / SQLAlchemy 2.0; domain: join "
